@@ -23,6 +23,7 @@ import (
 	"github.com/xuperchain/xupercore/protos"
 
 	"xv/chainlib"
+	"xv/xvlib"
 )
 
 // ---------------------------------------------------------------- consensus
@@ -35,6 +36,10 @@ type scriptCons struct {
 	before     int    // calls of ProcessBeforeMiner
 	calculated [][]byte
 	confirmed  [][]byte
+	// restamp: CalculateBlock changes the block the way a proof-of-work consensus does (new nonce, hence a new block
+	// id, signed again with the miner's key); one round
+	restamp bool
+	signer  *xvlib.Account
 }
 
 func (c *scriptCons) CompeteMaster(height int64) (bool, bool, error) { return true, false, nil }
@@ -52,6 +57,23 @@ func (c *scriptCons) ProcessBeforeMiner(timestamp int64) ([]byte, []byte, error)
 func (c *scriptCons) CalculateBlock(block cctx.BlockInterface) error {
 	c.mu.Lock()
 	defer c.mu.Unlock()
+	if c.restamp {
+		c.restamp = false
+		if err := block.SetItem("nonce", int32(7+len(c.calculated))); err != nil {
+			return err
+		}
+		id, err := block.MakeBlockId()
+		if err != nil {
+			return err
+		}
+		sig, err := xvlib.Crypto().SignECDSA(c.signer.Pri, id)
+		if err != nil {
+			return err
+		}
+		if err := block.SetItem("sign", sig); err != nil {
+			return err
+		}
+	}
 	c.calculated = append(c.calculated, append([]byte{}, block.GetBlockid()...))
 	return nil
 }
